@@ -12,6 +12,8 @@ Classes12 == {Absent, AbsentHere, LenErrAlw, Silent} \cup
 \* with ECUs that fall back to the default session after answering
 ClassesDrop == {Absent, LenErrAlw, AnswersAt(2, TRUE, FALSE), AnswersAt(2, TRUE, TRUE), AnswersAt(3, FALSE, TRUE)}
 Classes3 == {Absent, LenErrAlw, AnswersAt(2, TRUE, FALSE)}
+Classes2 == {Absent, AnswersAt(2, TRUE, FALSE)}
+ClassesSim == Classes6 \cup {AnswersAt(2, TRUE, TRUE), AnswersAt(3, FALSE, FALSE)}
 
 Cfg(has, ss, sa, sk, ri, ck) ==
   [has |-> has, sessions |-> ss, skipAll |-> sa, skip |-> sk, respIds |-> ri, check |-> ck]
